@@ -514,3 +514,6 @@ def check_one(case):
     outcome = kinds[0]
     rows = len(case["wb"].get("survey", ())) + len(case["wb"].get("choices", ()))
     return {"outcome": outcome, "nt": outcome == "ok", "viol": viol, "tr": 2 * rows}
+
+# as-built additions of the seventh wave (reported with the bound in the evidence)
+BOUND = {k: v + "; seventh wave: " + 'the frozen corpus of 501 realistic workbooks in both print modes; extra choices columns with any white space between the header words' for k, v in BOUND.items()}
